@@ -253,6 +253,50 @@ def r4_uniform(rep, facts):
     rep.check(R, 'count', n >= 4, f'{n} span-carrying deserializers', f'only {n} explicit deserialize_struct impls in toml_edit::de')
 
 
+def r4c_spanned_evaluated(rep, facts):
+    R = rep.rule('C14/R4c', 'wrapping a target in Spanned never changes whether decoding succeeds: deserialize_struct of every span-carrying toml_edit deserializer, evaluated '
+                 'with the Spanned marker name and fields, hands over visit_map(SpannedDeserializer::new(self, span)) for every span the item has — an ordinary one and the '
+                 'empty one (the root of a document without top-level pairs is 0..0)', floor=8)
+    from .den import RecInterp, Evaluator, Interp, EvalPanic, Unanalysable
+    ev = Evaluator(facts)
+    SOME_ = 'core::option::Option::Some'
+    try:
+        it0 = Interp(ev)
+        name = it0.val({'k': 'path', 'res': 'Const', 'path': 'serde_spanned::spanned::NAME'}, {})
+        fields = tuple(it0.val({'k': 'path', 'res': 'Const', 'path': 'serde_spanned::spanned::' + c}, {}) for c in ('START_FIELD', 'END_FIELD', 'VALUE_FIELD'))
+    except Unanalysable as ex:
+        rep.incomplete(R, 'marker', f'cannot evaluate the Spanned marker constants: {ex}')
+        return
+    if not isinstance(name, str) or not all(isinstance(x, str) for x in fields):
+        rep.incomplete(R, 'marker', f'the Spanned marker constants are not strings ({name!r}, {fields!r})')
+        return
+    for imp in facts.impls:
+        if imp.get('trait') != DE or not (imp.get('self_ty') or '').startswith('toml_edit::de::') or 'Deserializer<S>' in imp['self_ty']:
+            continue
+        items = {x['name']: x['def'] for x in imp['items']}
+        d = items.get('deserialize_struct')
+        if not d or not facts.has_body(d) or facts.body(d).get('x'):
+            continue
+        b = facts.body(d)
+        for label, span in (('an ordinary span', ('range', 3, 8)), ('the empty span', ('range', 0, -1))):      # the evaluator keeps ranges with an inclusive end: 3..9 and 0..0
+            me = ('struct', imp['self_ty'], {'input': ('opaque',), 'span': ('ctor', SOME_, (span,)), 'validate_struct_keys': False, 'key': 'k', 'items': ('opaque',)})
+            it = RecInterp(ev, {'visit_map'}, {'new'}, stubs={'span': ('ctor', SOME_, (span,))})
+            try:
+                r = it.apply_fn(b, [me, name, fields, ('opaque',)])
+            except EvalPanic as ex:
+                rep.bad(R, f'{imp["self_ty"]}|{label}', f'`{d}` panics for an item with {label}: {ex}', facts.loc(b))
+                continue
+            except Unanalysable as ex:
+                rep.incomplete(R, f'{imp["self_ty"]}|{label}', f'`{d}` asked for Spanned<T> on an item with {label} does not reach visit_map(SpannedDeserializer::new(self, span)) '
+                               f'within what the evaluator models ({ex})', facts.loc(b))
+                continue
+            ok = isinstance(r, tuple) and r[:2] == ('rec', 'visit_map') and len(r[3]) == 1 and isinstance(r[3][0], tuple) and r[3][0][:2] == ('rec', 'new') \
+                and len(r[3][0][3]) == 2 and r[3][0][3][1] == span
+            rep.check(R, f'{imp["self_ty"]}|{label}', ok, 'visit_map(SpannedDeserializer::new(self, span))',
+                      f'`{d}` asked for Spanned<T> on an item with {label} does not answer with the span map (it evaluates to {str(r)[:80]}): decoding the same item as Spanned<T> fails '
+                      f'or differs from decoding it as T', facts.loc(b))
+
+
 def r4b_newtype_transparent(rep, facts):
     R = rep.rule('C14/R4b', 'a newtype around Spanned<T> decodes like Spanned<T>: every span-carrying deserializer of toml_edit (value, key, table) hands ITSELF to '
                  'visit_newtype_struct, so that the inner deserialize_struct still sees the span source (a plain string / map deserializer in its place loses the span '
@@ -331,6 +375,23 @@ def r6b_header_span(rep, facts):
         rep.check(R, fn, ok, how, f'`{fn}`: {how}: the span of a table without own values then includes the trailing comment and the line end', facts.loc(b))
 
 
+def r9_header_span_kept(rep, facts):
+    R = rep.rule('C14/R9', 'the table a header opens carries that header\'s span, whichever table it is: start_table / start_array_table evaluated on a model parser '
+                 'state, with nothing under the name and with a header-implied table there (which `[t]` adopts — a table that has no span of its own)', floor=4)
+    from .shared import header_start_model
+    for fn, case, out in header_start_model(facts):
+        d = 'toml_edit::parser::state::ParseState::' + fn
+        loc = facts.loc(facts.body(d)) if facts.has_body(d) else ''
+        if isinstance(out, str):
+            (rep.incomplete if out.startswith('unanalysable') else rep.bad)(R, f'{fn}|{case}', f'`{fn}` with {case}: {out}', loc)
+            continue
+        if out is None:
+            rep.bad(R, f'{fn}|{case}', f'`{fn}` refuses a header with {case} under its name', loc)
+            continue
+        rep.check(R, f'{fn}|{case}', out['span'] == ('range', 10, 15), f'span = the header\'s ({"adopted table" if out["adopted"] else "fresh table"})',
+                  f'`{fn}` with {case}: the table opened has span {out["span"]!r} instead of the header\'s span — Item::span() of that table is None or stale and Spanned<T> of it fails to decode', loc)
+
+
 def rules(rep, facts):
     feats = set(facts.crates.get('toml_edit', {}).get('features', []))
     if 'toml_edit' not in facts.crates or 'parse' not in feats:
@@ -340,10 +401,12 @@ def rules(rep, facts):
     r2_despan(rep, facts)
     r6_attach(rep, facts)
     r6b_header_span(rep, facts)
+    r9_header_span_kept(rep, facts)
     if 'serde' in feats and 'serde_spanned' in facts.crates:
         r3_bridge(rep, facts)
         r4_uniform(rep, facts)
         r4b_newtype_transparent(rep, facts)
+        r4c_spanned_evaluated(rep, facts)
         from .rules_c15 import r1_span_attached
         r1_span_attached(rep, facts)
         rep.relabel('C15/R1', 'C14/R7', 'error locations delivered through serde are the innermost value\'s span: ')
